@@ -269,6 +269,10 @@ public:
   /// \brief Stop I/O thread and release resources.
   void stop() override
   {
+    // Serialize concurrent stop() calls: the caller that loses the _running
+    // exchange must not return while the winner is still joining the I/O thread
+    // (callbacks would still be entered after that stop() had returned).
+    std::lock_guard<std::mutex> stopLock(_stopMutex);
     bool exp = true;
     if (!_running.compare_exchange_strong(exp, false))
     {
@@ -2923,6 +2927,7 @@ private:
   // without revisiting this invariant.
   int _epollFd{-1}, _eventFd{-1}, _timerFd{-1};
   std::thread _loop;
+  std::mutex _stopMutex; // serializes stop(): a second caller waits for the join
   // Deferred self-destruct deleter (delete-this-at-thread-end). Written and read
   // ONLY on the I/O thread (set in scheduleSelfDestruct pre-detach; run in the
   // loop-lambda epilogue post-loop()); no synchronization — see EngineBase.
